@@ -178,6 +178,14 @@ class GateRules(Rule):
                     L.violate("C14", "A2", "refused:%s" % ctx,
                               "%s() in state %s / profile %d refused with MQTTStateError though allowed"
                               % (rq.m, rq.state_at_call, c.profile))
+                elif rq.m == "disconnect" and rq.how != "raised" and not d.excs \
+                        and not any(op.type == "DISCONNECT" and op.ci == rq.ci for op in d.writes):
+                    # ... and an allowed disconnect() is carried out
+                    L.violate("C14", "A2", "no-effect:%s" % ctx, "disconnect() in state %s / profile %d is allowed but wrote no DISCONNECT"
+                              % (rq.state_at_call, c.profile))
+                    L.violate("C18", "O4", "disconnect()-without-DISCONNECT",
+                              "disconnect() on connected conn %d wrote no DISCONNECT%s"
+                              % (c.ci, "" if any(x[0] == c.ci for x in d.xcalls) else " and did not ask the transport to close"))
                 elif rq.how == "raised":
                     # an allowed, valid operation is carried out; it does not raise half-way through
                     L.violate("C14", "A2", "raised:%s:%s" % (ctx, rq.exc),
